@@ -421,3 +421,74 @@ func HarnessC19PanicThrough() {
 	vrt.Assert(msg.Context().Err() == nil, "the message context is not left cancelled after a panicking call")
 	vrt.Observe("recovered", rec != nil)
 }
+
+// HarnessC19ThrottleRate (timed): after the throttle has been idle for an arbitrary time, back-to-back messages
+// still start no faster than the configured rate: any three consecutive handler starts span at least one
+// interval (one tick may have been waiting, never more). The ticker is the periodic model (a tick every
+// interval, dropped while the previous one has not been taken).
+func HarnessC19ThrottleRate() {
+	models.TickerPeriodic = true
+	models.TickerTicks = 9
+	const interval = 50 * time.Millisecond
+	th := NewThrottle(2, 2*interval)
+	var stamps []time.Time
+	mw := th.Middleware(func(m *message.Message) ([]*message.Message, error) {
+		stamps = append(stamps, time.Now())
+		return nil, nil
+	})
+	idle := time.Duration(vrt.Int("idle.intervals", 0, 4))*interval + time.Duration(vrt.Int("idle.offset.ms", 0, 2))*20*time.Millisecond
+	time.Sleep(idle)
+	for i := 0; i < 4; i++ {
+		_, err := mw(message.NewMessage("m", nil))
+		vrt.Assert(err == nil, "result unchanged")
+	}
+	if vrt.Timed() {
+		for i := 0; i+2 < len(stamps); i++ {
+			vrt.Assert(stamps[i+2].Sub(stamps[i]) >= interval, "handler starts are no faster than the configured rate, also after an idle period")
+		}
+	}
+	vrt.Observe("starts", len(stamps))
+}
+
+// HarnessC19TimeoutDeadline: the deadline Timeout promises is visible during the call whatever deadline the
+// message context already carries (none, an earlier one, a later one): never later than timeout after the
+// call started, and never later than the one that was there.
+func HarnessC19TimeoutDeadline() {
+	timeout := 20 * time.Millisecond
+	if vrt.Bool("long.timeout") {
+		timeout = 3 * time.Second
+	}
+	msg := message.NewMessage("m", nil)
+	var had time.Time
+	hadDeadline := false
+	switch vrt.Int("existing.deadline", 0, 2) {
+	case 1:
+		ctx, cancel := context.WithTimeout(context.Background(), 5*time.Millisecond) // sooner than either timeout
+		defer cancel()
+		msg.SetContext(ctx)
+		had, hadDeadline = ctx.Deadline()
+	case 2:
+		ctx, cancel := context.WithTimeout(context.Background(), 2*time.Second) // between the two timeouts
+		defer cancel()
+		msg.SetContext(ctx)
+		had, hadDeadline = ctx.Deadline()
+	}
+	before := time.Now()
+	calls := 0
+	h := func(m *message.Message) ([]*message.Message, error) {
+		calls++
+		dl, ok := m.Context().Deadline()
+		vrt.Assert(ok, "Timeout: a deadline is visible during the call")
+		vrt.Assert(!dl.After(time.Now().Add(timeout)), "Timeout: the visible deadline is at most the timeout away")
+		vrt.Assert(!dl.Before(before.Add(timeout)) || (hadDeadline && !dl.After(had)), "Timeout: the deadline is not sooner than the timeout unless the message already had a sooner one")
+		if hadDeadline {
+			vrt.Assert(!dl.After(had), "Timeout never extends a deadline the message already had")
+		}
+		return nil, nil
+	}
+	_, err := Timeout(timeout)(h)(msg)
+	vrt.Assert(err == nil && calls == 1, "the handler runs exactly once, result unchanged")
+	dl, ok := msg.Context().Deadline()
+	vrt.Assert(ok == hadDeadline && (!ok || dl.Equal(had)), "afterwards the message carries the context it had before")
+	vrt.Observe("calls", calls)
+}
